@@ -15,9 +15,10 @@ ETYPES = {"critical_path_operator": "op", "critical_path_dependency": "dep", "cr
 
 def gen_cp_case(rng, nranks=1):
     sync_rate = rng.choice([0.0, 0.1, 0.2, 0.3])
+    event_rate = rng.choice([0.0, 0.25, 0.4])
     # a device-wide synchronisation must wait for every thread's work; the simulator schedules threads one
     # after the other, so a second launching thread is only generated when there are no blocking calls
-    case = C.gen_with(rng, lambda c: C.every_rank_has_device(c) and all(has_linked_launch(ev) for ev in c["ranks"].values()), nranks=nranks, sync_rate=sync_rate,
+    case = C.gen_with(rng, lambda c: C.every_rank_has_device(c) and all(has_linked_launch(ev) for ev in c["ranks"].values()), nranks=nranks, sync_rate=sync_rate, event_rate=event_rate, **({"nstreams": rng.choice([2, 2, 3])} if event_rate else {}),
                       missing_rate=rng.choice([0.0, 0.0, 0.1]), nsteps=rng.choice([0, 1, 2, 3]),
                       zero_rate=rng.choice([0.0, 0.1, 0.2]), two_threads=(sync_rate == 0.0 and rng.random() < 0.4))
     G.add_sync_records(rng, case)
